@@ -113,7 +113,10 @@ def observe_cli(text, filters=()):
                     j = json.loads(out[i:])
                     res["json"] = {"success": bool(j["success"]), "error": j["error"] or "",
                                    "result": [{"check": x["check"], "count": x["count"],
-                                               "shorts": [p["short"] for p in x.get("paths", [])]}
+                                               "shorts": [p["short"] for p in x.get("paths", [])],
+                                               # per path: the source lines of every listed block ("<line>: <ins>")
+                                               "blines": [[[int(t.split(":", 1)[0]) for t in blk] for blk in p.get("blocks", [])]
+                                                          for p in x.get("paths", [])]}
                                               for x in j["result"] if x.get("type") == "ExecutionPaths"]}
                 except Exception as e:  # noqa: BLE001
                     rec["exc"] = "unparsable json: %s" % e
